@@ -138,7 +138,7 @@ func GoOracle(fn *vm.BytecodeFunction, tab []*OpInfo) (res string) {
 		if r := recover(); r != nil {
 			res = "err disassemble-panic " + strings.SplitN(fmt.Sprint(r), "\n", 2)[0]
 		}
-		if strings.HasPrefix(res, "err") {
+		{
 			// name the opcodes of this function on which the disassembler and the VM-derived
 			// table disagree (canonical failure class)
 			used := map[string]int{}
@@ -149,7 +149,9 @@ func GoOracle(fn *vm.BytecodeFunction, tab []*OpInfo) (res string) {
 					sus = append(sus, o.Name)
 				}
 			}
-			res += " uses=" + strings.Join(sus, "+")
+			if len(sus) > 0 || strings.HasPrefix(res, "err") {
+				res += " uses=" + strings.Join(sus, "+")
+			}
 		}
 	}()
 	if len(fn.Instructions) == 0 {
